@@ -225,7 +225,9 @@ def check(model, rep):
                        'the function can return before testing the boxes (other than `no boxes -> False`)', line=n.lineno)
     it = Interp(n1, n2, lp.target.id if isinstance(lp.target, ast.Name) else '?')
     try:
-        ends, brks, exits = paths_of_block(lp.body, fi.params)
+        # values named once before the loop (hoisted node positions) are part of what one round computes
+        hoisted = [s_ for s_ in body[:k_lp] if isinstance(s_, ast.Assign)]
+        ends, brks, exits = paths_of_block(hoisted + list(lp.body), fi.params)
     except RuntimeError as ex:
         raise AnalysisError('RRTStar.obstruction is no longer separating-axis-shaped (%s)' % ex)
     rets = [e for e in exits if e.kind == 'return']
